@@ -124,6 +124,9 @@ def setup_env(virtual_sleep=True):
     return _env
 
 
+SERVE_KWARGS = []      # keyword arguments the repository's run_server passed to websockets.serve (evidence)
+
+
 class Server:
     """In-process server; restart() drops every in-memory object of the server side (new ServicesManager)."""
 
@@ -133,7 +136,49 @@ class Server:
         self.port = None
 
     async def start(self):
-        self.server = await websockets.serve(self.env["connector"].handler, "127.0.0.1", 0, max_size=None)
+        """The server is started by the repository's own connector.run_server (so the listening parameters it passes
+        to websockets.serve - message size limit, queue sizes, keep-alive - are the ones under test); a proxy for the
+        name `websockets` inside that module only captures the server object and the keyword arguments."""
+        connector = self.env["connector"]
+        owner = self
+        ready = asyncio.Event()
+
+        class _Capture:
+            def __init__(self, real):
+                self.real = real
+
+            async def __aenter__(self):
+                srv = await self.real.__aenter__()
+                owner.server = srv
+                ready.set()
+                return srv
+
+            async def __aexit__(self, *a):
+                return await self.real.__aexit__(*a)
+
+            def __await__(self):
+                async def go():
+                    srv = await self.real
+                    owner.server = srv
+                    ready.set()
+                    return srv
+                return go().__await__()
+
+        class _WSProxy:
+            def __getattr__(self, name):
+                return getattr(websockets, name)
+
+            def serve(self, *a, **kw):
+                SERVE_KWARGS.append(dict(sorted((k, repr(v)) for k, v in kw.items())))
+                return _Capture(websockets.serve(*a, **kw))
+
+        connector.websockets = _WSProxy()
+        self.task = asyncio.ensure_future(connector.run_server("127.0.0.1", 0))
+        try:
+            await asyncio.wait_for(ready.wait(), 10)
+        except asyncio.TimeoutError:
+            self.task.cancel()
+            raise RuntimeError("connector.run_server did not start listening within 10 s")
         self.port = self.server.sockets[0].getsockname()[1]
         self.env["global_config"].ClientConfig.SERVER_URI = self.uri
         return self
@@ -150,6 +195,14 @@ class Server:
             except asyncio.TimeoutError:
                 pass
             self.server = None
+        task = getattr(self, "task", None)
+        if task is not None:
+            task.cancel()
+            try:
+                await asyncio.wait_for(asyncio.gather(task, return_exceptions=True), 5)
+            except (asyncio.TimeoutError, asyncio.CancelledError):
+                pass
+            self.task = None
 
     async def restart(self):
         await self.stop()
